@@ -3,9 +3,10 @@
 (* every response script of length <= MaxScript over Kinds, two blocks in a row, every producer limit in    *)
 (* Limits (chunks are stored ahead of the block only under the limit, as the signature-request path does).  *)
 (* Variant: "fixed" (repaired code), "original" (as coded before), "ratelimited" (VerifyRemoteChunk also    *)
-(* rate-limits fetched chunks; must violate Served).                                                        *)
+(* rate-limits fetched chunks; must violate Served), "appendfirst" (response appended before it is stored;  *)
+(* must violate PrefixExact).  The fp-th store of a fetched chunk fails once, fp in 0..MaxFail.             *)
 EXTENDS DSMRNodeAccept
-CONSTANTS MaxCerts, MaxScript, MaxBlocks, Variant, Limits
+CONSTANTS MaxCerts, MaxScript, MaxBlocks, Variant, Limits, MaxFail
 VARIABLE nblk
 mvars == <<avars, nblk>>
 
@@ -18,13 +19,14 @@ Scripts == SeqsUpTo(Kinds, MaxScript)
 ProdOf(c) == IF c = "k3" THEN "v2" ELSE "v1"
 Req(c, k) == CASE Variant = "original"    -> RequestAsOriginallyCoded(c, k)
                [] Variant = "ratelimited" -> RequestRateLimited(c, k)
+               [] Variant = "appendfirst" -> RequestAppendBeforeStore(c, k)
                [] OTHER                   -> Request(c, k)
 
 MCInit == nblk = 0 /\ \E lim \in Limits : AcceptInit(lim)
 MCNext ==
   \/ \E c \in Chunks \ have : Cardinality({d \in pend : ProdOf(d) = ProdOf(c)}) + 1 <= limit /\ Store(c, ProdOf(c)) /\ UNCHANGED nblk
   \/ /\ nblk < MaxBlocks
-     /\ \E cs \in Blocks, sc \in Scripts : AcceptCall(cs, [i \in DOMAIN cs |-> ProdOf(cs[i])], sc)
+     /\ \E cs \in Blocks, sc \in Scripts, fp \in 0..MaxFail : AcceptCall(cs, [i \in DOMAIN cs |-> ProdOf(cs[i])], sc, fp)
      /\ nblk' = nblk + 1
   \/ /\ \E c \in Chunks, k \in Kinds : Req(c, k)
      /\ UNCHANGED nblk
